@@ -3,6 +3,7 @@ import ZapVerif.Proofs.EntryWF
 import ZapVerif.Proofs.Spaced
 import ZapVerif.Gen.EntryMeta
 import ZapVerif.Proofs.SubEnc
+import ZapVerif.Proofs.TransConsoleLink
 /-! # C16 — console encoder lines have the documented shape with a valid JSON context -/
 namespace ZapVerif.C16
 open ZapVerif ZapVerif.Esc ZapVerif.Json ZapVerif.Enc ZapVerif.Entry ZapVerif.Console
@@ -153,5 +154,315 @@ example :
 
 end SubEncoders
 /-! ## (END block `subenc`) -/
+
+end ZapVerif.C16
+
+/-! ## the console encoder IS the source (table `Gen/TransConsole.lean`)
+
+`addSeparatorIfNecessary`, `writeContext` and `EncodeEntry` of zapcore/console_encoder.go, translated mechanically, are
+interpreted for EVERY configuration, entry, accumulated context and every behaviour of the sub-encoders and of
+`addFields` (parameters):
+
+* `addSeparatorIfNecessary` is `Console.sepIf`: the separator iff the line is non-empty — whatever the line ends with;
+* `writeContext` clones the logger's JSON encoder (the accumulated context is COPIED, the logger's encoder is only
+  read), adds the call-site fields, closes the namespaces, and writes `{…}` after a separator exactly when the text is
+  non-empty; the scratch buffer is freed and the clone put back AFTER the text was copied, on both paths;
+* `EncodeEntry` prints the columns the sub-encoders appended — time, level, name, caller (only with a key AND an
+  encoder), function (with a key, whatever the caller encoder is) — joined by the separator, then message, context,
+  stack, line ending: `TransConsole.consoleBytes`, which is `Console.consoleLine` (`consoleBytes_is_consoleLine`). -/
+namespace ZapVerif.C16
+set_option linter.unusedSimpArgs false
+open ZapVerif ZapVerif.GoMini ZapVerif.TransConsole ZapVerif.Gen.TransConsole
+open ZapVerif.TransJsonEnc (St closeNs ECfg EEnt)
+
+theorem addSeparatorIfNecessary_exec_matches_source (P : Par) (sepc line : Bytes) (fl : Env)
+    (hfl : Env.get "consoleSep" fl = some (.bytes sepc)) (fuel : Nat) :
+    (exec (X P) (fuel + 1) addSeparatorIfNecessary_body ⟨[("p0", .bytes line)], fl⟩).fin =
+      some ([.bytes (sepIf sepc line)], fl) := by
+  rw [exec_succ]
+  cases line with
+  | nil => simp [addSeparatorIfNecessary_body, sepIf]
+  | cons x xs =>
+    have hpos : (0 : Int) < (xs.length : Int) + 1 := by omega
+    have hne : ¬ ((xs.length : Int) + 1 = 0) := by omega
+    simp [addSeparatorIfNecessary_body, sepIf, hpos, hne, hfl]
+
+/-- `addSeparatorIfNecessary(line)`: the separator iff the line is not empty -/
+theorem addSeparatorIfNecessary_matches_source (P : Par) (c : ECfg) (sepc line : Bytes) (b : Bytes) (sp : Bool) (ns : Int)
+    (rb re : List Val) (obuf : Bytes) (osp : Bool) (ons : Int) (self : Val) (ev : List Val) (fuel : Nat) :
+    run (X P) (fuel + 1) "addSeparatorIfNecessary" [.bytes line] (conFld c sepc b sp ns rb re obuf osp ons self ev) =
+      .done [.bytes (sepIf sepc line)] (conFld c sepc b sp ns rb re obuf osp ons self ev) :=
+  run_of_fin (X P) _ _ Gen.TransConsole.addSeparatorIfNecessary [.bytes line] _ _ _ rfl rfl
+    (addSeparatorIfNecessary_exec_matches_source P sepc line _ rfl fuel)
+
+/-- the recorded calls of `writeContext`: the clone first; `context.buf.Free()` and `putJSONEncoder(context)` last -/
+def writeContextEv (P : Par) (obuf : Bytes) (osp : Bool) (ons : Int) (extra self : Val) : List Val :=
+  [.list [TransConsole.nm "jsonEncoder.Clone", .bytes obuf, .bool osp, .int ons],
+   .list [TransConsole.nm "Buffer.Free", .bytes (ctxBytes P obuf osp ons extra)],
+   .list [TransConsole.nm "putJSONEncoder", .list (ctxSt P obuf osp ons extra).rbuf, self]]
+
+theorem writeContext_exec_matches_source (P : Par) (c : ECfg) (sepc line : Bytes) (extra : Val) (b : Bytes) (sp : Bool)
+    (ns : Int) (rb re : List Val) (obuf : Bytes) (osp : Bool) (ons : Int) (self : Val) (ev : List Val) (fuel : Nat) :
+    (exec (X P) (fuel + 2) writeContext_body
+        ⟨[("p0", .bytes line), ("p1", extra)], conFld c sepc b sp ns rb re obuf osp ons self ev⟩).fin =
+      some ([.bytes (writeContextSpec P sepc obuf osp ons extra line)],
+        conFld c sepc (ctxBytes P obuf osp ons extra) osp 0 (ctxSt P obuf osp ons extra).rbuf (ctxSt P obuf osp ons extra).renc
+          obuf osp ons self (ev ++ writeContextEv P obuf osp ons extra self)) := by
+  have hsep : ∀ (σ : State) (fl : Env), Env.get "consoleSep" fl = some (.bytes sepc) →
+      retK σ [.loc "p0"] "addSeparatorIfNecessary"
+        (exec (X P) (fuel + 1) addSeparatorIfNecessary_body ⟨[("p0", .bytes line)], fl⟩) =
+        .normal (({ σ with fld := fl } : State).assign1 (.loc "p0") (.bytes (sepIf sepc line))) :=
+    fun σ fl hfl => retK_of_fin1 σ _ _ _ _ _ (addSeparatorIfNecessary_exec_matches_source P sepc line fl hfl fuel)
+  rw [exec_succ]
+  by_cases he : (ctxBytes P obuf osp ons extra).isEmpty
+  · have he' : ctxBytes P obuf osp ons extra = [] := by simpa using he
+    have he2 : closeNs (P.addFields extra osp ⟨obuf, ons, [], []⟩).buf (P.addFields extra osp ⟨obuf, ons, [], []⟩).ns = [] := he'
+    simp [writeContext_body, writeContextSpec, writeContextEv, ctxSt, he, he', he2, nm_Clone, nm_free, nm_put,
+      List.append_assoc]
+  · have hne : ¬ closeNs (P.addFields extra osp ⟨obuf, ons, [], []⟩).buf (P.addFields extra osp ⟨obuf, ons, [], []⟩).ns = [] := by
+      intro h; apply he; unfold ctxBytes ctxSt; rw [h]; rfl
+    simp [writeContext_body, writeContextSpec, writeContextEv, ctxBytes, ctxSt, he, hne, nm_Clone, nm_free, nm_put,
+      List.append_assoc, hsep, Env.get, State.assign1]
+
+/-- `writeContext(line, extra)`: the line afterwards is `writeContextSpec`; the clone is made first, its buffer freed
+    and the encoder put back last — on the early return too -/
+theorem writeContext_matches_source (P : Par) (c : ECfg) (sepc line : Bytes) (extra : Val) (b : Bytes) (sp : Bool)
+    (ns : Int) (rb re : List Val) (obuf : Bytes) (osp : Bool) (ons : Int) (self : Val) (ev : List Val) (fuel : Nat) :
+    run (X P) (fuel + 2) "writeContext" [.bytes line, extra] (conFld c sepc b sp ns rb re obuf osp ons self ev) =
+      .done [.bytes (writeContextSpec P sepc obuf osp ons extra line)]
+        (conFld c sepc (ctxBytes P obuf osp ons extra) osp 0 (ctxSt P obuf osp ons extra).rbuf (ctxSt P obuf osp ons extra).renc
+          obuf osp ons self (ev ++ writeContextEv P obuf osp ons extra self)) :=
+  run_of_fin (X P) _ _ Gen.TransConsole.writeContext [.bytes line, extra] _ _ _ rfl rfl
+    (writeContext_exec_matches_source P c sepc line extra b sp ns rb re obuf osp ons self ev fuel)
+
+/-! ### `EncodeEntry`, statement by statement -/
+
+/-- the k-th top-level statement of the body -/
+def ceStmt : Nat → Stmt → Stmt
+  | 0, s => s.hd
+  | k + 1, s => ceStmt k s.tl
+
+section blocks
+variable (P : Par) (c : ECfg) (sepc : Bytes) (e : EEnt) (fields : Val) (b : Bytes) (sp : Bool) (ns : Int) (rb re : List Val)
+  (obuf : Bytes) (osp : Bool) (ons : Int) (self : Val) (ev : List Val) (rec : Stmt → State → GoMini.Out)
+
+theorem CE_time (line : Bytes) (es : List Val) (j : CJ) :
+    execS (X P) rec (ceStmt 2 EncodeEntry_body) ⟨cLoc e fields line es j, conFld c sepc b sp ns rb re obuf osp ons self ev⟩ =
+      .normal ⟨cLoc e fields line (timeCol P c e es) j, conFld c sepc b sp ns rb re obuf osp ons self ev⟩ := by
+  cases hk : c.timeKey with
+  | nil => cases j <;> simp [ceStmt, Stmt.hd, Stmt.tl, EncodeEntry_body, cLoc, CJ.env, timeCol, hk]
+  | cons k ks =>
+    cases hf : c.encTime with
+    | nil => cases j <;> simp [ceStmt, Stmt.hd, Stmt.tl, EncodeEntry_body, cLoc, CJ.env, timeCol, hk, hf]
+    | cons f fs =>
+      have hpos : ¬ ((fs.length : Int) + 1 = 0) := by omega
+      cases hz : P.timeIsZero e.time <;> cases j <;>
+        simp [ceStmt, Stmt.hd, Stmt.tl, EncodeEntry_body, cLoc, CJ.env, timeCol, hk, hf, hz, hpos]
+
+theorem CE_level (line : Bytes) (es : List Val) (j : CJ) :
+    execS (X P) rec (ceStmt 3 EncodeEntry_body) ⟨cLoc e fields line es j, conFld c sepc b sp ns rb re obuf osp ons self ev⟩ =
+      .normal ⟨cLoc e fields line (levelCol P c e es) j, conFld c sepc b sp ns rb re obuf osp ons self ev⟩ := by
+  cases hk : c.levelKey with
+  | nil => cases j <;> simp [ceStmt, Stmt.hd, Stmt.tl, EncodeEntry_body, cLoc, CJ.env, levelCol, hk]
+  | cons k ks =>
+    cases hf : c.encLevel with
+    | nil => cases j <;> simp [ceStmt, Stmt.hd, Stmt.tl, EncodeEntry_body, cLoc, CJ.env, levelCol, hk, hf]
+    | cons f fs =>
+      have hpos : ¬ ((fs.length : Int) + 1 = 0) := by omega
+      cases j <;> simp [ceStmt, Stmt.hd, Stmt.tl, EncodeEntry_body, cLoc, CJ.env, levelCol, hk, hf, hpos]
+
+theorem CE_name (line : Bytes) (es : List Val) :
+    ∃ j', execS (X P) rec (ceStmt 4 EncodeEntry_body) ⟨cLoc e fields line es .n, conFld c sepc b sp ns rb re obuf osp ons self ev⟩ =
+      .normal ⟨cLoc e fields line (nameCol P c e es) j', conFld c sepc b sp ns rb re obuf osp ons self ev⟩ ∧
+      (j' = .n ∨ ∃ v, j' = .a v) := by
+  cases hn : e.name with
+  | nil => exact ⟨.n, by simp [ceStmt, Stmt.hd, Stmt.tl, EncodeEntry_body, cLoc, CJ.env, nameCol, hn], .inl rfl⟩
+  | cons n0 nr =>
+    cases hk : c.nameKey with
+    | nil => exact ⟨.n, by simp [ceStmt, Stmt.hd, Stmt.tl, EncodeEntry_body, cLoc, CJ.env, nameCol, hn, hk], .inl rfl⟩
+    | cons k ks =>
+      cases hf : c.encName with
+      | nil =>
+        exact ⟨.a (.list [.int 0]), by
+          simp [ceStmt, Stmt.hd, Stmt.tl, EncodeEntry_body, cLoc, CJ.env, nameCol, TransJsonEnc.nameFn, hn, hk, hf], .inr ⟨_, rfl⟩⟩
+      | cons f fs =>
+        have hpos : ¬ ((fs.length : Int) + 1 = 0) := by omega
+        exact ⟨.a (.list (f :: fs)), by
+          simp [ceStmt, Stmt.hd, Stmt.tl, EncodeEntry_body, cLoc, CJ.env, nameCol, TransJsonEnc.nameFn, hn, hk, hf, hpos],
+          .inr ⟨_, rfl⟩⟩
+
+/-- caller: only with a key AND an encoder; function: with a key, whatever the caller encoder is -/
+theorem CE_caller (line : Bytes) (es : List Val) (j : CJ) :
+    execS (X P) rec (ceStmt 5 EncodeEntry_body) ⟨cLoc e fields line es j, conFld c sepc b sp ns rb re obuf osp ons self ev⟩ =
+      .normal ⟨cLoc e fields line (callerCol P c e es) j, conFld c sepc b sp ns rb re obuf osp ons self ev⟩ := by
+  cases hd : e.callerDefined with
+  | false => cases j <;> simp [ceStmt, Stmt.hd, Stmt.tl, EncodeEntry_body, cLoc, CJ.env, callerCol, hd]
+  | true =>
+    cases hk : c.callerKey with
+    | nil =>
+      cases hfk : c.functionKey <;> cases j <;>
+        simp [ceStmt, Stmt.hd, Stmt.tl, EncodeEntry_body, cLoc, CJ.env, callerCol, hd, hk, hfk]
+    | cons k ks =>
+      cases hf : c.encCaller with
+      | nil =>
+        cases hfk : c.functionKey <;> cases j <;>
+          simp [ceStmt, Stmt.hd, Stmt.tl, EncodeEntry_body, cLoc, CJ.env, callerCol, hd, hk, hf, hfk]
+      | cons f fs =>
+        have hpos : ¬ ((fs.length : Int) + 1 = 0) := by omega
+        cases hfk : c.functionKey <;> cases j <;>
+          simp [ceStmt, Stmt.hd, Stmt.tl, EncodeEntry_body, cLoc, CJ.env, callerCol, hd, hk, hf, hfk, hpos]
+
+/-- the printing loop: every element the sub-encoders appended, in order, joined by the separator -/
+theorem CE_print (line : Bytes) (es : List Val) (j : CJ) :
+    ∃ j', execS (X P) rec (ceStmt 6 EncodeEntry_body) ⟨cLoc e fields line es j, conFld c sepc b sp ns rb re obuf osp ons self ev⟩ =
+      .normal ⟨cLoc e fields (joinCols P sepc line es.zipIdx) es j', conFld c sepc b sp ns rb re obuf osp ons self ev⟩ := by
+  have hs : ceStmt 6 EncodeEntry_body = EncodeEntry_loop0 := rfl
+  have hstep : ∀ (a : Bytes × CJ) (i : Nat) (y : Val), es[i]? = some y →
+      execS (X P) rec EncodeEntry_loop0.rbody
+        (((⟨cLoc e fields a.1 es a.2, conFld c sepc b sp ns rb re obuf osp ons self ev⟩ : State).assign1 (.loc "l3") (.int i)).assign1
+          .blank ((fun v : Val => v) y)) =
+      .normal ⟨cLoc e fields (printStep P sepc a i y).1 es (printStep P sepc a i y).2,
+        conFld c sepc b sp ns rb re obuf osp ons self ev⟩ := by
+    intro a i y hy
+    obtain ⟨l, jj⟩ := a
+    have hidx := indexVal_list_get es i y hy
+    by_cases hi : i = 0
+    · subst hi
+      have hidx : indexVal (.list es) (.int 0) = .ok y := by simpa using hidx
+      cases jj <;> simp [EncodeEntry_loop0, Stmt.rbody, cLoc, CJ.env, CJ.setB, printStep, State.assign1, Env.set, hidx]
+    · have hp : (0 : Int) < (i : Int) := by omega
+      have hp' : 0 < i := by omega
+      cases jj <;> simp [EncodeEntry_loop0, Stmt.rbody, cLoc, CJ.env, CJ.setB, printStep, State.assign1, Env.set, hidx, hp, hp']
+  have hfold := rangeRun_fold_at (execS (X P) rec EncodeEntry_loop0.rbody) (.loc "l3") .blank
+    (fun a : Bytes × CJ => (⟨cLoc e fields a.1 es a.2, conFld c sepc b sp ns rb re obuf osp ons self ev⟩ : State))
+    (fun v : Val => v) (printStep P sepc) es hstep es 0 (line, j) rfl
+  refine ⟨((es.zipIdx 0).foldl (fun a p => printStep P sepc a p.2 p.1) (line, j)).2, ?_⟩
+  rw [hs]
+  have hL : EncodeEntry_loop0 = .range (.loc "l3") .blank (.index (.loc "l1") (.lit (.int 0))) EncodeEntry_loop0.rbody := rfl
+  rw [hL, execS_range]
+  have hev : evalE (X P) ⟨cLoc e fields line es j, conFld c sepc b sp ns rb re obuf osp ons self ev⟩
+      (.index (.loc "l1") (.lit (.int 0))) = .ok (.list es) := by
+    cases j <;> simp [cLoc, CJ.env]
+  rw [hev]
+  simp only [Res.out, List.map_id'] at hfold ⊢
+  rw [hfold, ← printFold_fst P sepc (es.zipIdx 0) (line, j)]
+
+theorem CE_putSlice (line : Bytes) (es : List Val) (j : CJ) :
+    execS (X P) rec (ceStmt 7 EncodeEntry_body) ⟨cLoc e fields line es j, conFld c sepc b sp ns rb re obuf osp ons self ev⟩ =
+      .normal ⟨cLoc e fields line es j, conFld c sepc b sp ns rb re obuf osp ons self
+        (ev ++ [.list [TransConsole.nm "putSliceEncoder", arrV es]])⟩ := by
+  cases j <;> simp [ceStmt, Stmt.hd, Stmt.tl, EncodeEntry_body, cLoc, CJ.env, nm_putSlice]
+
+theorem CE_message (line : Bytes) (es : List Val) (j : CJ) (fuel : Nat) (hrec : rec = exec (X P) (fuel + 1)) :
+    execS (X P) rec (ceStmt 8 EncodeEntry_body) ⟨cLoc e fields line es j, conFld c sepc b sp ns rb re obuf osp ons self ev⟩ =
+      .normal ⟨cLoc e fields (messageLine c sepc e line) es j, conFld c sepc b sp ns rb re obuf osp ons self ev⟩ := by
+  subst hrec
+  have hsep : ∀ (σ : State) (fl : Env), Env.get "consoleSep" fl = some (.bytes sepc) →
+      retK σ [.loc "l0"] "addSeparatorIfNecessary"
+        (exec (X P) (fuel + 1) addSeparatorIfNecessary_body ⟨[("p0", .bytes line)], fl⟩) =
+        .normal (({ σ with fld := fl } : State).assign1 (.loc "l0") (.bytes (sepIf sepc line))) :=
+    fun σ fl hfl => retK_of_fin1 σ _ _ _ _ _ (addSeparatorIfNecessary_exec_matches_source P sepc line fl hfl fuel)
+  cases hk : c.messageKey with
+  | nil => cases j <;> simp [ceStmt, Stmt.hd, Stmt.tl, EncodeEntry_body, cLoc, CJ.env, messageLine, hk]
+  | cons k ks =>
+    cases j <;>
+      simp [ceStmt, Stmt.hd, Stmt.tl, EncodeEntry_body, cLoc, CJ.env, messageLine, hk, hsep, Env.get, State.assign1, Env.set]
+
+theorem CE_context (line : Bytes) (es : List Val) (j : CJ) (fuel : Nat) (hrec : rec = exec (X P) (fuel + 2)) :
+    execS (X P) rec (ceStmt 9 EncodeEntry_body) ⟨cLoc e fields line es j, conFld c sepc b sp ns rb re obuf osp ons self ev⟩ =
+      .normal ⟨cLoc e fields (writeContextSpec P sepc obuf osp ons fields line) es j,
+        conFld c sepc (ctxBytes P obuf osp ons fields) osp 0 (ctxSt P obuf osp ons fields).rbuf (ctxSt P obuf osp ons fields).renc
+          obuf osp ons self (ev ++ writeContextEv P obuf osp ons fields self)⟩ := by
+  subst hrec
+  have hcall : ∀ σ : State, retK σ [.loc "l0"] "writeContext"
+      (exec (X P) (fuel + 2) writeContext_body
+        ⟨[("p0", .bytes line), ("p1", fields)], conFld c sepc b sp ns rb re obuf osp ons self ev⟩) = _ :=
+    fun σ => retK_of_fin1 σ _ _ _ _ _ (writeContext_exec_matches_source P c sepc line fields b sp ns rb re obuf osp ons self ev fuel)
+  cases j <;> simp [ceStmt, Stmt.hd, Stmt.tl, EncodeEntry_body, cLoc, CJ.env, hcall, State.assign1, Env.set]
+
+/-- stack (after a newline, only with a key), line ending, `return line, nil` -/
+theorem CE_tail (line : Bytes) (es : List Val) (j : CJ) :
+    execS (X P) rec (EncodeEntry_body.tl.tl.tl.tl.tl.tl.tl.tl.tl.tl) ⟨cLoc e fields line es j, conFld c sepc b sp ns rb re obuf osp ons self ev⟩ =
+      .ret [.bytes (stackLine c e line ++ c.lineEnding), .list []]
+        ⟨cLoc e fields (stackLine c e line ++ c.lineEnding) es j, conFld c sepc b sp ns rb re obuf osp ons self ev⟩ := by
+  cases hs : e.stack <;> cases hk : c.stacktraceKey <;> cases j <;>
+    simp [Stmt.tl, EncodeEntry_body, cLoc, CJ.env, stackLine, hs, hk]
+
+theorem CE_get :
+    execS (X P) rec (ceStmt 0 EncodeEntry_body)
+        ⟨[("p0", e.val), ("p1", fields)], conFld c sepc b sp ns rb re obuf osp ons self ev⟩ =
+      .normal ⟨[("p0", e.val), ("p1", fields), ("l0", .bytes [])], conFld c sepc b sp ns rb re obuf osp ons self
+        (ev ++ [.list [TransConsole.nm "bufferpool.Get"]])⟩ := by
+  simp [ceStmt, Stmt.hd, Stmt.tl, EncodeEntry_body, nm_get]
+
+theorem CE_getSlice :
+    execS (X P) rec (ceStmt 1 EncodeEntry_body)
+        ⟨[("p0", e.val), ("p1", fields), ("l0", .bytes [])], conFld c sepc b sp ns rb re obuf osp ons self ev⟩ =
+      .normal ⟨cLoc e fields [] [] .n, conFld c sepc b sp ns rb re obuf osp ons self
+        (ev ++ [.list [TransConsole.nm "getSliceEncoder"]])⟩ := by
+  simp [ceStmt, Stmt.hd, Stmt.tl, EncodeEntry_body, cLoc, CJ.env, nm_getSlice]
+
+end blocks
+
+/-- **EncodeEntry_matches_source** (console): for every configuration, entry, context and every behaviour of the
+    sub-encoders and of `addFields`, the interpreted `EncodeEntry` returns `consoleBytes` and a nil error; the logger's
+    own encoder (`o.*`) is unchanged; every pooled object is returned after its last use -/
+theorem EncodeEntry_matches_source (P : Par) (c : ECfg) (sepc : Bytes) (e : EEnt) (fields : Val) (b : Bytes) (sp : Bool)
+    (ns : Int) (rb re : List Val) (obuf : Bytes) (osp : Bool) (ons : Int) (self : Val) (ev : List Val) (fuel : Nat) :
+    run (X P) (fuel + 3) "EncodeEntry" [e.val, fields] (conFld c sepc b sp ns rb re obuf osp ons self ev) =
+      .done [.bytes (consoleBytes P c sepc obuf osp ons e fields), .list []]
+        (conFld c sepc (ctxBytes P obuf osp ons fields) osp 0 (ctxSt P obuf osp ons fields).rbuf
+          (ctxSt P obuf osp ons fields).renc obuf osp ons self
+          (ev ++ [.list [TransConsole.nm "bufferpool.Get"], .list [TransConsole.nm "getSliceEncoder"]] ++
+            [.list [TransConsole.nm "putSliceEncoder", arrV (elems P c e)]] ++ writeContextEv P obuf osp ons fields self)) := by
+  refine run_of_fin (X P) _ _ Gen.TransConsole.EncodeEntry [e.val, fields] _ _ _ rfl rfl ?_
+  show (exec (X P) (fuel + 3) EncodeEntry_body ⟨[("p0", e.val), ("p1", fields)], _⟩).fin = _
+  rw [exec_succ]
+  have hb : EncodeEntry_body =
+      .seq (ceStmt 0 EncodeEntry_body) (.seq (ceStmt 1 EncodeEntry_body) (.seq (ceStmt 2 EncodeEntry_body)
+      (.seq (ceStmt 3 EncodeEntry_body) (.seq (ceStmt 4 EncodeEntry_body) (.seq (ceStmt 5 EncodeEntry_body)
+      (.seq (ceStmt 6 EncodeEntry_body) (.seq (ceStmt 7 EncodeEntry_body) (.seq (ceStmt 8 EncodeEntry_body)
+      (.seq (ceStmt 9 EncodeEntry_body) EncodeEntry_body.tl.tl.tl.tl.tl.tl.tl.tl.tl.tl))))))))) := rfl
+  generalize hrec : exec (X P) (fuel + 2) = rec
+  rw [hb]
+  simp only [execS_seq]
+  rw [CE_get]; simp only [Out.andThen_normal, execS_seq]
+  rw [CE_getSlice]; simp only [Out.andThen_normal, execS_seq]
+  rw [CE_time]; simp only [Out.andThen_normal, execS_seq]
+  rw [CE_level]; simp only [Out.andThen_normal, execS_seq]
+  obtain ⟨j4, h4, hj4⟩ := CE_name P c sepc e fields b sp ns rb re obuf osp ons self
+    (ev ++ [.list [TransConsole.nm "bufferpool.Get"]] ++ [.list [TransConsole.nm "getSliceEncoder"]]) rec []
+    (levelCol P c e (timeCol P c e []))
+  rw [h4]; simp only [Out.andThen_normal, execS_seq]
+  rw [CE_caller]; simp only [Out.andThen_normal, execS_seq]
+  obtain ⟨j6, h6⟩ := CE_print P c sepc e fields b sp ns rb re obuf osp ons self
+    (ev ++ [.list [TransConsole.nm "bufferpool.Get"]] ++ [.list [TransConsole.nm "getSliceEncoder"]]) rec []
+    (callerCol P c e (nameCol P c e (levelCol P c e (timeCol P c e [])))) j4
+  rw [h6]; simp only [Out.andThen_normal, execS_seq]
+  rw [CE_putSlice]; simp only [Out.andThen_normal, execS_seq]
+  rw [CE_message P c sepc e fields b sp ns rb re obuf osp ons self _ rec _ _ _ (fuel + 1) hrec.symm]
+  simp only [Out.andThen_normal, execS_seq]
+  rw [CE_context P c sepc e fields b sp ns rb re obuf osp ons self _ rec _ _ _ fuel hrec.symm]
+  simp only [Out.andThen_normal]
+  rw [CE_tail]
+  simp [consoleBytes, elems, List.append_assoc]
+
+/-- the line is the model's `Console.consoleLine` — the function `console_line_shape`, `context_is_json` … are stated
+    over — whenever the sub-encoders append what the model's `Cols` say and `addFields` does what the model's call trees
+    say (`TransConsole.ConsoleLink`, Proofs/TransConsoleLink.lean) -/
+theorem EncodeEntry_is_consoleLine (P : Par) (c : ECfg) (e : EEnt) (cfg : Entry.Cfg) (ent : Entry.Ent) (k : Console.Cols)
+    (L : ConsoleLink P c e cfg ent k) (sepRaw : Bytes) (ctx : List (List Entry.Field)) (fields : List Entry.Field) (fv : Val)
+    (hf : ∀ (b : Bytes) (n : Nat),
+      (P.addFields fv true ⟨b, n, [], []⟩).buf = (Enc.runO true ⟨b, n⟩ (Entry.addFields fields)).buf ∧
+      (P.addFields fv true ⟨b, n, [], []⟩).ns = ((Enc.runO true ⟨b, n⟩ (Entry.addFields fields)).openNs : Int))
+    (b : Bytes) (sp : Bool) (ns : Int) (rb re : List Val) (self : Val) (ev : List Val) (fuel : Nat) :
+    ∃ fl, run (X P) (fuel + 3) "EncodeEntry" [e.val, fv]
+        (conFld c (if sepRaw.isEmpty then [9] else sepRaw) b sp ns rb re (Entry.ctxEnc true ctx).buf true
+          (Entry.ctxEnc true ctx).openNs self ev) =
+      .done [.bytes (Console.consoleLine cfg sepRaw ent k ctx fields), .list []] fl := by
+  have h := EncodeEntry_matches_source P c (if sepRaw.isEmpty then [9] else sepRaw) e fv b sp ns rb re
+    (Entry.ctxEnc true ctx).buf true (Entry.ctxEnc true ctx).openNs self ev fuel
+  rw [consoleBytes_is_consoleLine P c e cfg ent k L sepRaw ctx fields fv hf] at h
+  exact ⟨_, h⟩
 
 end ZapVerif.C16
